@@ -111,7 +111,7 @@ class CrashRun:
         else:
             kinds = [("scalar", 3), ("tuple2", 1), ("str", 1), ("array", 1)]
         m = self.m = CropMachine(
-            ctx, kinds=kinds, max_n=10, max_batches=5,
+            ctx, kinds=kinds, max_n=16 if ctx.params.get("tier") == "thorough" else 10, max_batches=5,
             farmer_roles=[role] if role else None,
             allow_cases=(role != "sampler"), ext_choice=False,
             world_cfg={"max_steps": 400000})
@@ -430,11 +430,13 @@ def run_c10(ctx):
     only = ctx.params.get("only_site")
     if only is not None:
         sites = [only]
-    elif K <= MAX_SITES:
-        sites = list(range(1, K + 1))
     else:
-        step = K / float(MAX_SITES)
-        sites = sorted({1 + int(i * step) for i in range(MAX_SITES)} | {K})
+        cap = MAX_SITES * (3 if ctx.params.get("tier") == "thorough" else 1)
+        if K <= cap:
+            sites = list(range(1, K + 1))
+        else:
+            step = K / float(cap)
+            sites = sorted({1 + int(i * step) for i in range(cap)} | {K})
     ctx.stats["sites-enumerated"] += len(sites)
     ctx.t("crash sites", K, "enumerated", len(sites))
     for k in sites:
